@@ -5,6 +5,7 @@ import (
 	"fmt"
 	"os"
 	"path/filepath"
+	"strconv"
 	"strings"
 
 	"github.com/AdguardTeam/urlfilter"
@@ -178,7 +179,86 @@ func c19HostSet(hs []*rules.HostRule) []string {
 	return util.SortedSet(out)
 }
 
+// c19Big materialises a very large number of rules before the fault (more than
+// any plausible bound of a cache: 9 000 in the quick tier, 70 000 in the
+// thorough one) and demands every one of them afterwards.
+func c19Big(c *core.Ctx, n int) {
+	dir, err := os.MkdirTemp(filepath.Join(c.Env.VerifDir, ".work"), "c19b.")
+	if err != nil {
+		c.Inconclusive("cannot create scratch directory")
+
+		return
+	}
+	defer os.RemoveAll(dir)
+	var sb strings.Builder
+	for i := 0; i < n; i++ {
+		fmt.Fprintf(&sb, "||h%d.big.example^\n", i)
+	}
+	file := filepath.Join(dir, "list.txt")
+	if os.WriteFile(file, []byte(sb.String()), 0o644) != nil || os.WriteFile(filepath.Join(dir, "decoy.txt"), c19Decoy([]byte(sb.String())), 0o644) != nil {
+		c.Inconclusive("cannot write scratch file")
+
+		return
+	}
+	for _, fault := range c19FaultKinds {
+		t, berr := c19Build("network", file)
+		if berr != nil {
+			c.Inconclusive("cannot build file-backed engine")
+
+			return
+		}
+		w := map[string]any{"rules": n, "fault": fault, "list": "||h<i>.big.example^ for i in 0.." + strconv.Itoa(n-1)}
+		ask := func(i int) bool {
+			rs := t.net.MatchAll(rules.NewRequest("http://h"+strconv.Itoa(i)+".big.example/", "", rules.TypeOther))
+
+			return len(rs) == 1 && rs[0].RuleText == "||h"+strconv.Itoa(i)+".big.example^"
+		}
+		ok := true
+		for i := 0; i < n && ok; i++ {
+			ok = ask(i)
+		}
+		c.Eval(1)
+		if !ok {
+			c.Violation("big-list-fault-free", nil, w, "fault-free queries over %d rules are not all answered", n)
+			_ = t.storage.Close()
+
+			continue
+		}
+		if t.storage.GetCacheSize() != n {
+			// Not a violation by itself (the statement is about what is served
+			// after the fault), but worth seeing in the evidence.
+			c.Event("big_list_cache_smaller_than_materialised", 1)
+		}
+		if c.Guard("fault-injection", nil, w, func() { _ = c19Inject(t, fault, dir) }) {
+			continue
+		}
+		lost := 0
+		first := -1
+		if !c.Guard("query-after-fault", nil, w, func() {
+			for i := 0; i < n; i++ {
+				if !ask(i) {
+					lost++
+					if first < 0 {
+						first = i
+					}
+				}
+			}
+		}) && lost > 0 {
+			c.Violation("materialised-rule-lost:"+fault, nil, w, "%d of %d rules retrieved before the fault (%s) are no longer returned, first ||h%d.big.example^", lost, n, fault, first)
+		}
+		c.Eval(1)
+		c.Event("big_list_rules_demanded_after_fault", int64(n))
+		_ = t.storage.Close()
+	}
+	c.NonTrivial(core.Hash64("big", strconv.Itoa(n)))
+}
+
 func c19Run(c *core.Ctx, idx int) {
+	if idx == 1 {
+		c19Big(c, map[core.Tier]int{core.Quick: 9000, core.Thorough: 70000}[c.Env.Tier])
+
+		return
+	}
 	kind := []string{"dns", "network"}[idx%2]
 	var lines []string
 	if kind == "dns" {
@@ -460,7 +540,7 @@ func init() {
 		ID:    "C19",
 		Level: "fault_enumeration",
 		Rule: "per case one file-backed list (DNS: rules + hosts lines over colliding names; network: a pool mixing all index paths) and one query history of 10..30 (thorough 10..60) queries drawn with repeats from 8 distinct requests; in half of the cases the list is padded beyond the 4 KiB read block so that a rule straddles a block boundary exactly where its prefix is a valid broader rule matching a request of the history; for EVERY fault point k in 0..n and every fault kind in {RuleStorage.Close, file handle replaced by an already closed descriptor, by a directory descriptor (Seek succeeds, reads fail with EISDIR), by the read end of a closed pipe (Seek fails with ESPIPE), by an already closed descriptor of ANOTHER file that holds different matching rules at the same offsets} the engine is rebuilt, queries before k must equal a String-backed twin, queries from k on must not panic, must return a subset of the fault-free result whose members individually match, and must still return every rule materialised before k (tracked from storage.insert hook events, cross-checked with GetCacheSize); " +
-			"non-trivial = every (list, history) pair, each contributing 5*(n+1) fault placements; distinct by list and history length",
+			"plus one case that materialises 9 000 (thorough 70 000) rules before each kind of fault and demands all of them afterwards; non-trivial = every (list, history) pair, each contributing 5*(n+1) fault placements; distinct by list and history length",
 		Assumptions: []string{
 			"the fault-free oracle is a String-backed twin engine over the same bytes",
 			"with only a subset of rules available the selected basic rule may legitimately differ from the fault-free one; only membership and match are required",
